@@ -115,6 +115,14 @@ func (n *JoinNode) Delete(src int, d edge.DeleteGroupMessage) error {
 }
 
 func (n *JoinNode) Finish() error {
+	// Specific points still cached by join.on() matching will not get a match anymore:
+	// send them alone (outer joins emit them filled) instead of dropping them.
+	for _, buf := range n.specificGroupsBuffer {
+		for i := 0; i < buf.Len; i++ {
+			n.sendSpecificPoint(buf.Peek(i))
+		}
+		buf.Dequeue(buf.Len)
+	}
 	// No more points are coming signal all groups to finish up.
 	for _, group := range n.groups {
 		if err := group.Finish(); err != nil {
